@@ -144,6 +144,23 @@ def handleMstep (withNk : Bool) (toks : List String) : Option String := do
     let nk := if withNk then s!"nk={showList (shA sc) p.nk} " else ""
     some s!"ok {nk}w={showList (shA sc) p.weights} mu={showList2 (shA sc) (p.means.map (·.map (· / s)))} covdiag={showList2 (shA sc) (p.covs.map (diagOf d (s * s)))} covcorr={showList3 (shA sc) (p.covs.map (corrOf d))}{mg}"
 
+/-- one whole EM iteration (`emStep`): from the parameters of the state before the accepted step and the
+records to the parameters `fit` returned; compared when every E-step row is well conditioned -/
+def handleEmstep (toks : List String) : Option String := do
+  let reg ← argF64 toks "reg"
+  let m ← parseMix sc toks
+  let x ← parseObs sc toks m.d
+  if x.length = 0 then none else
+  let well := x.all fun xi =>
+    wellP sc (deltaOf sc m.d m.w m.mu m.pc xi) (logRespStable (weightedLogProb (ln2pi sc) m.d m.w m.mu m.pc xi)).2
+  let s0 := maxF (x.flatten.map absS)
+  let s : α := if (0 : α) < s0 then s0 else 1
+  let d := m.d
+  match emStep (thr sc) (sc.ofF reg) (ln2pi sc) d m.w m.mu m.pc x with
+  | .error e => some s!"err {e} margin={sh (flag well)}"
+  | .ok p =>
+    some s!"ok w={showList (shA sc) p.weights} mu={showList2 (shA sc) (p.means.map (·.map (· / s)))} covdiag={showList2 (shA sc) (p.covs.map (diagOf d (s * s)))} covcorr={showList3 (shA sc) (p.covs.map (corrOf d))} margin={sh (flag well)}"
+
 def handlePrec (toks : List String) : Option String := do
   let pc ← argF64s3 toks "pc"
   let d := (pc.headD []).length
@@ -198,6 +215,8 @@ def handle (toks : List String) : String :=
     | "proba" :: rest => handleProba sc64 rest
     | "predict" :: rest => handlePredict sc64 rest
     | "fitwalk" :: rest => handleFitwalk sc64 rest
+    | "emstep" :: rest => handleEmstep sc64 rest
+    | "emstep32" :: rest => handleEmstep sc32 rest
     | "estep32" :: rest => handleEstep sc32 rest
     | "mstep32" :: rest => handleMstep sc32 true rest
     | "mstepfit32" :: rest => handleMstep sc32 false rest
